@@ -49,14 +49,14 @@ import (
 )
 
 const (
-	nsMaxID      = 8 // replica ids 1..5 initial voters, 6..8 spares that can be added
-	nsTopDir     = "nodesim"
-	nsOverhead   = 1000000 // CompactionOverhead when log compaction is not wanted
+	nsMaxID    = 8 // replica ids 1..5 initial voters, 6..8 spares that can be added
+	nsTopDir   = "nodesim"
+	nsOverhead = 1000000 // CompactionOverhead when log compaction is not wanted
 	// nodehost.go streamPushDelayTick / streamConfirmedDelayTick
 	nsStreamPushDelayTick      = 10
 	nsStreamConfirmedDelayTick = 2
-	nsC12Slack   = 8       // ticks after the deadline within which a terminal result must exist
-	nsMaxTraceLn = 400
+	nsC12Slack                 = 8 // ticks after the deadline within which a terminal result must exist
+	nsMaxTraceLn               = 400
 )
 
 // nsSetGlobalRand replaces the source of goutils' process wide PRNG. The variable
@@ -180,11 +180,12 @@ type nsSim struct {
 	held    [nsMaxID + 1][nsMaxID + 1]bool
 	heldQ   [nsMaxID + 1][nsMaxID + 1][]pb.Message
 
-	trace   []string
-	failing bool
-	quiet   bool
-	rounds  int
-	inFair  bool
+	trace      []string
+	failing    bool
+	noDescribe bool
+	quiet      bool
+	rounds     int
+	inFair     bool
 
 	appliedCmd map[uint64]string
 	memAt      map[uint64]string
@@ -196,10 +197,14 @@ type nsSim struct {
 	propSeq    int
 	flags      map[string]bool
 	foreign    map[string]bool
-	outOfModel string
-	addKind    map[uint64]pb.ConfigChangeType
-	votesSent  int
-	dropped    int
+	applyViol  [][2]string
+	// orphanBlocked[r] = index of a streamed snapshot that r's transport rejected
+	// because a finalized directory of that index already exists at r
+	orphanBlocked map[uint64]uint64
+	outOfModel    string
+	addKind       map[uint64]pb.ConfigChangeType
+	votesSent     int
+	dropped       int
 }
 
 var nsShardSeq uint64 = 7000
@@ -216,6 +221,8 @@ func newNsSim(t *rapid.T, st *vfhelp.Stats, armed []string, opts nsOpts) *nsSim 
 		flags:      map[string]bool{},
 		foreign:    map[string]bool{},
 		addKind:    map[uint64]pb.ConfigChangeType{},
+
+		orphanBlocked: map[uint64]uint64{},
 	}
 	for _, a := range armed {
 		s.armed[a] = true
@@ -340,7 +347,9 @@ func (s *nsSim) dump(sig, msg string) {
 		}
 		s.t.Logf("  %4d %s", i, s.trace[i])
 	}
-	s.t.Logf("state: %s", s.describe())
+	if !s.noDescribe {
+		s.t.Logf("state: %s", s.describe())
+	}
 }
 
 func (s *nsSim) describe() string {
@@ -362,7 +371,7 @@ func (s *nsSim) describe() string {
 			fmt.Fprintf(&b, " term=%d leaderinfo=(%d,%d) applied=%d pushed=%d init=%t", r.term, lid, term,
 				r.n.sm.GetLastApplied(), r.n.pushedIndex, r.n.initialized())
 			if r.n.qs.enabled {
-				fmt.Fprintf(&b, " quiesced=%t idle=%d", r.n.qs.quiesced(), r.n.qs.currentTick-r.n.qs.idleSince)
+				fmt.Fprintf(&b, " quiesced=%t(since %d) idle=%d tick=%d", r.n.qs.quiesced(), r.n.qs.quiescedSince, r.n.qs.currentTick-r.n.qs.idleSince, r.n.qs.currentTick)
 			}
 			fmt.Fprintf(&b, " members=%s", nsMembers(r.n.sm.GetMembership()))
 		}
@@ -405,6 +414,7 @@ func (s *nsSim) guard(what string, f func()) {
 			}
 			msg := fmt.Sprint(r)
 			s.logf("PANIC in %s: %s", what, msg)
+			s.noDescribe = true // locks of the code under test may still be held
 			s.armed["nodesim-panic"] = true
 			s.violate("nodesim-panic", "code under test panicked in %s: %s", what, msg)
 		}
@@ -608,7 +618,11 @@ func (s *nsSim) deliverSnapshot(m pb.Message) {
 		if err := env.FinalizeSnapshot(&ss); err != nil {
 			env.MustRemoveTempDir()
 			if err == server.ErrSnapshotOutOfDate {
-				fail("out of date at the target")
+				// transport.Chunk.addLocked drops the stream silently at its last chunk; the
+				// sender has written all chunks without an error and reports success
+				s.logf("    snapshot %d r%d -> r%d dropped by the target's transport: a directory of that index exists there (the sender sees success)", m.Snapshot.Index, m.From, m.To)
+				s.orphanBlocked[to.id] = m.Snapshot.Index
+				s.snapshotStatus(from, m.To, false, nsStreamPushDelayTick)
 				return
 			}
 			panic(err)
@@ -849,6 +863,7 @@ func (s *nsSim) applyReplica(r *nsReplica) {
 			n.handleSnapshotTask(task)
 		}
 	})
+	s.flushApplyViolations()
 }
 
 // ssWorker = workerPool + ssWorker for a single node (save and recover jobs).
@@ -911,20 +926,32 @@ func (s *nsSim) roundsN(k int) {
 // ---------------------------------------------------------------------------
 // oracles
 
+// onApply is called from inside the user state machine (rsm holds its lock):
+// violations are only recorded here and raised by flushApplyViolations.
 func (s *nsSim) onApply(r *nsReplica, inc int, index uint64, cmd []byte) {
 	c := string(cmd)
 	if inc == r.inc {
 		if index <= r.lastIdx {
-			s.violate("nodesim-apply-order", "r%d applied index %d after index %d", r.id, index, r.lastIdx)
+			s.applyViol = append(s.applyViol, [2]string{"nodesim-apply-order",
+				fmt.Sprintf("r%d applied index %d after index %d", r.id, index, r.lastIdx)})
 		}
 		r.lastIdx = index
 	}
 	if prev, ok := s.appliedCmd[index]; ok {
 		if prev != c {
-			s.violate("nodesim-applied-entry-differs", "index %d: r%d applied %q, another replica (or an earlier incarnation) applied %q", index, r.id, c, prev)
+			s.applyViol = append(s.applyViol, [2]string{"nodesim-applied-entry-differs",
+				fmt.Sprintf("index %d: r%d applied %q, another replica (or an earlier incarnation) applied %q", index, r.id, c, prev)})
 		}
 	} else {
 		s.appliedCmd[index] = c
+	}
+}
+
+func (s *nsSim) flushApplyViolations() {
+	v := s.applyViol
+	s.applyViol = nil
+	for _, x := range v {
+		s.violate(x[0], "%s", x[1])
 	}
 }
 
@@ -1254,6 +1281,20 @@ func (s *nsSim) fairPhase(clientPick func(n int) int) {
 		r.stalled = false
 	}
 	operator()
+	// precondition of C17: a majority of the voting members is running
+	if mem, _ := s.latestMembership(); true {
+		running := 0
+		for id := range mem.Addresses {
+			if s.reps[id].alive {
+				running++
+			}
+		}
+		if running < len(mem.Addresses)/2+1 {
+			s.logf("    no majority of the voting members %v can be run by the operator, no progress required", nsKeys(mem.Addresses))
+			s.flag("fair-no-majority-running")
+			return
+		}
+	}
 	leaderAtStart := s.leader() != nil
 	// stage A
 	budgetA := 60 * E
@@ -1451,10 +1492,18 @@ func (s *nsSim) classifyStuck() bool {
 					running++
 				}
 			}
-			if running < len(mem.Addresses)/2+1 && s.leader() == nil {
+			if running < len(mem.Addresses)/2+1 {
 				return s.known("stuck-quorum-needs-self-removed-replica",
 					"r%d committed and applied its own removal and stopped, r%d still counts it as a voting member and cannot reach a quorum of its membership without it; %s", x.id, v.id, s.describe())
 			}
+		}
+	}
+	// Q3 (findings/E9.md): a lagging replica keeps rejecting the stream of the
+	// leader's snapshot because an orphaned directory of the same index exists
+	for _, r := range s.aliveReps() {
+		if idx, ok := s.orphanBlocked[r.id]; ok && r.n.sm.GetLastApplied() < idx && s.leader() != nil {
+			return s.known("nodesim-orphan-snapshot-dir-blocks-restream",
+				"r%d (applied %d) needs the leader's snapshot %d, but every stream of it is rejected by r%d's own transport (ErrSnapshotOutOfDate): a directory of that index was finalized there earlier for an InstallSnapshot message that its raft then ignored; it cannot catch up until the leader creates a snapshot with a larger index; %s", r.id, r.n.sm.GetLastApplied(), idx, r.id, s.describe())
 		}
 	}
 	// F5: CheckQuorum and PreVote off, a replica that cannot campaign has a higher
